@@ -373,6 +373,89 @@ func (h *harness) useLimits(l lim) {
 	h.e.Line("cases.txt", "L %d %d %d %d %d", l.str, l.name, l.arr, l.dict, l.depth)
 }
 
+// hasDict2: the value contains a dictionary with two or more non-nil entries.
+func hasDict2(o pdf.Object) bool {
+	switch x := o.(type) {
+	case pdf.Array:
+		for _, y := range x {
+			if hasDict2(y) {
+				return true
+			}
+		}
+	case pdf.Dict:
+		n := 0
+		for _, v := range x {
+			if v != nil {
+				n++
+			}
+			if hasDict2(v) {
+				return true
+			}
+		}
+		return n >= 2
+	}
+	return false
+}
+
+// reinsert: an equal value whose maps are fresh and were filled in a random order.
+func (h *harness) reinsert(o pdf.Object) pdf.Object {
+	switch x := o.(type) {
+	case pdf.Array:
+		if x == nil {
+			return x
+		}
+		y := make(pdf.Array, len(x))
+		for i, v := range x {
+			y[i] = h.reinsert(v)
+		}
+		return y
+	case pdf.Dict:
+		if x == nil {
+			return x
+		}
+		keys := make([]pdf.Name, 0, len(x))
+		for k := range x {
+			keys = append(keys, k)
+		}
+		sort.Slice(keys, func(i, j int) bool { return keys[i] < keys[j] })
+		h.e.Rand.Shuffle(len(keys), func(i, j int) { keys[i], keys[j] = keys[j], keys[i] })
+		y := make(pdf.Dict)
+		for _, k := range keys {
+			y[k] = h.reinsert(x[k])
+		}
+		return y
+	}
+	return o
+}
+
+// deterministic: "formatting is deterministic" - the same value, formatted again and again
+// (the same maps, and equal maps filled in another order; Go randomises map iteration per
+// loop), gives the same bytes every time.
+func (h *harness) deterministic(xs []pdf.Object, reps int, class string) {
+	for _, opt := range []pdf.OutputOptions{0, pdf.OptPretty} {
+		first, err := realFormat(opt, xs)
+		if err != nil {
+			return
+		}
+		for r := 0; r < reps; r++ {
+			ys := xs
+			if r%2 == 1 {
+				ys = make([]pdf.Object, len(xs))
+				for i, x := range xs {
+					ys[i] = h.reinsert(x)
+				}
+			}
+			t, _ := realFormat(opt, ys)
+			h.e.Evaluations++
+			if !bytes.Equal(t, first) {
+				h.e.Fail("nondeterministic-format", fmt.Sprintf("%s: Format(opt=%d) gives different bytes for the same value (call %d): %q vs %q", class, opt, r+2, first, t),
+					map[string]any{"values": rawList(xs), "opt": int(opt), "first": hx(first), "other": hx(t)})
+				return
+			}
+		}
+	}
+}
+
 // oracle: the property itself, on the implementation.
 func (h *harness) oracle(xs []pdf.Object, class string) {
 	want := "ok 0" + canonList(xs)
@@ -501,6 +584,19 @@ func (h *harness) objects(xs []pdf.Object, class string, nontrivial bool) {
 	}
 	want := "ok 0" + canonList(xs)
 	h.e.Count(nontrivial, class+rawList(xs), class)
+	dict2 := false
+	for _, x := range xs {
+		if hasDict2(x) {
+			dict2 = true
+		}
+	}
+	if dict2 && inLimits {
+		reps := 6
+		if class == "key-family" {
+			reps = 24
+		}
+		h.deterministic(xs, reps, class)
+	}
 	for p := 0; p < 2; p++ {
 		opt := pdf.OutputOptions(0)
 		if p == 1 {
@@ -518,6 +614,13 @@ func (h *harness) objects(xs []pdf.Object, class string, nontrivial bool) {
 		} else {
 			// beyond the limits: the two scanners must still agree
 			h.e.Line("impl.obs", "%s %s", id, realScan(text))
+		}
+		if inLimits && dict2 {
+			// the key sequence the formatter emitted, as the model scanner reads it from the
+			// text, against the model's SortedKeys order (Scan.text_ordered)
+			id := h.id("k")
+			h.e.Line("cases.txt", "%s SO %s", id, hx(text))
+			h.e.Line("impl.obs", "%s sorted", id)
 		}
 		if inLimits && h.L == stdLim {
 			h.layoutN++
@@ -699,7 +802,8 @@ func (h *harness) rref() pdf.Reference {
 	return pdf.NewReference(uint32(r.IntN(maxXRef)), uint16(r.IntN(maxGen+1)))
 }
 
-var someKeys = []pdf.Name{"Type", "Subtype", "A", "B", "Length", "", "K#", "a b", "Typ", "Types", "S", "\xff", "(", "R", "null"}
+var someKeys = []pdf.Name{"Type", "Subtype", "A", "B", "Length", "", "K#", "a b", "Typ", "Types", "S", "\xff", "(", "R", "null",
+	"F1", "F01", "F10", "F2", "a7b", "a007b", "ab", "AB", "Ab", "\x80", "A#42", "AA", "1", "01"}
 
 func (h *harness) rkey() pdf.Name {
 	r := h.e.Rand
@@ -973,6 +1077,62 @@ func phase1() {
 				h.objects([]pdf.Object{pdf.Name(n), pdf.Name("C" + n + "x"), pdf.Dict{pdf.Name(n): pdf.Name(n + n)}}, "hash-hex-name", (i+j)%8 == 0)
 			}
 			h.objects([]pdf.Object{pdf.Name("#" + string(hexd[i])), pdf.Name("##" + string(hexd[i]) + "#")}, "hash-hex-name", false)
+		}
+	}
+
+	// 1c. dictionary key families that are adversarial for a comparator: common prefixes, keys
+	// that are prefixes of each other, digit runs with leading zeros, case variants, bytes >= 0x80
+	// (signed/unsigned, UTF-8 composed/decomposed), keys that coincide after #-escaping or
+	// unescaping, length-first vs byte-first, the special keys and their neighbours.  Every
+	// family as a whole, every pair and triple within a family, and random mixtures.
+	h.pfx = "k"
+	{
+		families := [][]pdf.Name{
+			{"A", "AB", "ABC", "AB0", "ABD", "AC", "B"},
+			{"", "T", "Ty", "Typ", "Type", "Types", "Type0", "S", "Sub", "Subtype", "Subtypes", "Subtyp", "U", "R"},
+			{"F1", "F01", "F001", "F10", "F2", "F02", "F9", "F010", "F1x", "F01x", "F"},
+			{"1", "01", "001", "10", "2", "9", "0", "00", "1.0", "+1", "-1"},
+			{"a7b", "a007b", "a07b", "a7", "a70b", "a8b", "a10b", "a9b"},
+			{"abc", "ABC", "Abc", "aBc", "abC", "aBC", "ab", "AB"},
+			{"\x7f", "\x80", "\xff", "A\x7f", "A\x80", "A", "\x00", "\x01", "~"},
+			{"\xc3\xa9", "e\xcc\x81", "e", "f", "\xc3", "\xc3\xa8", "E", "z"},
+			{"AB", "A#42", "#41B", "A#4", "A#", "#", "##", "#23", "A B", "A#20B", "A#2"},
+			{"B", "AA", "AAA", "BA", "C", "a", "_", "-", "+", ".", "Z"},
+			{"a b", "a\tb", "a\nb", "a(b", "a)b", "a/b", "a%b", "a<b", "a[b", "ab"},
+		}
+		val := func(i int) pdf.Object { return pdf.Integer(i) }
+		mk := func(keys []pdf.Name) pdf.Dict {
+			d := pdf.Dict{}
+			for i, k := range keys {
+				d[k] = val(i)
+			}
+			return d
+		}
+		for _, fam := range families {
+			h.objects([]pdf.Object{mk(fam)}, "key-family", true)
+			h.objects([]pdf.Object{pdf.Array{mk(fam), pdf.Dict{"K": mk(fam)}}}, "key-family", false)
+			for i := 0; i < len(fam); i++ {
+				for j := i + 1; j < len(fam); j++ {
+					h.objects([]pdf.Object{mk([]pdf.Name{fam[i], fam[j]})}, "key-family", false)
+					for l := j + 1; l < len(fam); l++ {
+						if (i+j+l)%e.Pick(3, 1) == 0 {
+							h.objects([]pdf.Object{mk([]pdf.Name{fam[l], fam[i], fam[j]})}, "key-family", false)
+						}
+					}
+				}
+			}
+		}
+		var allKeys []pdf.Name
+		for _, fam := range families {
+			allKeys = append(allKeys, fam...)
+		}
+		for i := 0; i < e.Pick(300, 6000); i++ {
+			n := 2 + e.Rand.IntN(12)
+			keys := make([]pdf.Name, n)
+			for j := range keys {
+				keys[j] = allKeys[e.Rand.IntN(len(allKeys))]
+			}
+			h.objects([]pdf.Object{mk(keys)}, "key-family", i%10 == 0)
 		}
 	}
 
